@@ -128,13 +128,13 @@ def build(group, start):
                           epsilon=gkw.get("graft_eps", 1e-10))
   if kind == "tf_shampoo":
     so = second_order.Options(
-        merge_dims=1, second_order_type=second_order.SecondOrderType.SHAMPOO,
+        merge_dims=2, second_order_type=second_order.SecondOrderType.SHAMPOO,
         shampoo_options=shampoo.Options(block_size=group.get("block_size", 8),
                                         update_preconditioners_freq=group["p"],
                                         update_statistics_freq=group["s"]))
   else:
     so = second_order.Options(
-        merge_dims=1, second_order_type=second_order.SecondOrderType.SKETCHY, shampoo_options=None,
+        merge_dims=2, second_order_type=second_order.SecondOrderType.SKETCHY, shampoo_options=None,
         sketchy_options=sketchy.Options(rank=gkw.get("rank", 2), update_freq=group["s"]))
   mo = momentum.Options(momentum_decay=gkw.get("momentum", 0.9), nesterov=gkw.get("nesterov", True),
                         ema=gkw.get("ema", False))
@@ -203,6 +203,7 @@ def graft_reference(group, grads, lrs):
   if kind in ("ds", "ds_sharded"):
     gt = kw.get("graft_type", "SGD")
     beta1, beta2 = f32(kw.get("beta1", 0.9)), f32(kw.get("beta2", 0.999))
+    w2 = f32(1.0 - kw.get("beta2", 0.999))   # python double arithmetic, then float32 (as the code does)
     nest = kw.get("nesterov", True)
     dstat = {n: np.zeros_like(grads[0][n]) for n in names}
     mom = {n: np.zeros_like(grads[0][n]) for n in names}
@@ -216,7 +217,7 @@ def graft_reference(group, grads, lrs):
           dstat[n] = dstat[n] + x * x
           gu = x / (np.sqrt(dstat[n]) + f32(1e-10))
         elif gt == "RMSPROP":
-          dstat[n] = beta2 * dstat[n] + (f32(1.0) - beta2) * (x * x)
+          dstat[n] = beta2 * dstat[n] + w2 * (x * x)
           gu = x / (np.sqrt(dstat[n]) + f32(1e-10))
         else:
           raise ValueError(gt)
@@ -227,6 +228,7 @@ def graft_reference(group, grads, lrs):
     return out
   gt = kw.get("graft_type", "RMSPROP")
   d = f32(kw.get("graft_decay", 0.99))
+  omd = f32(1 - kw.get("graft_decay", 0.99))
   eps = f32(kw.get("graft_eps", 1e-10))
   mdec = f32(kw.get("momentum", 0.9))
   nest = kw.get("nesterov", True)
@@ -239,11 +241,11 @@ def graft_reference(group, grads, lrs):
       if gt == "SGD":
         gu = x
       else:
-        acc[n] = (x * x) * (f32(1.0) - d) + d * acc[n]
+        acc[n] = (x * x) * omd + d * acc[n]
         gu = x * (f32(1.0) / np.sqrt(acc[n] + eps))
       if float(mdec) != 0.0:
         if kw.get("ema", False):
-          gu = gu * (f32(1.0) - mdec)
+          gu = gu * f32(1 - kw.get("momentum", 0.9))
         tr[n] = gu + mdec * tr[n]
         gu = (gu + mdec * tr[n]) if nest else tr[n]
       res[n] = gu * f32(-1.0 * lrs[t])
